@@ -83,7 +83,7 @@ func runC17(c *hx.Ctx) {
 	for i, s := range scns {
 		s.id = i
 	}
-	par := 12
+	par := 32
 	sem := make(chan struct{}, par)
 	var wg sync.WaitGroup
 	for _, s := range scns {
